@@ -14,7 +14,7 @@ import (
 // sfuScenario: a locking read inside a global transaction, autocommit or inside an explicit local transaction, with
 // or without a foreign global transaction holding one of the rows at the coordinator.
 func sfuScenario(r *hutil.Rng, i int, stream string) (atrun.Scenario, Meta) {
-	variant := []int{0, 3, 2, 6, 7}[r.Intn(5)]
+	variant := []int{0, 3, 2, 6, 7, 1, 1}[r.Intn(7)]
 	t := mkTable(r, variant, false)
 	for t.nkeys < 3 {
 		t = mkTable(r, variant, false)
@@ -32,6 +32,9 @@ func sfuScenario(r *hutil.Rng, i int, stream string) (atrun.Scenario, Meta) {
 		pk := strconv.Itoa(1 + r.Intn(2))
 		if variant >= 6 {
 			pk = "1.25e+06"
+		}
+		if variant == 1 {
+			pk = "c" + pk
 		}
 		if variant == 2 {
 			pk = "1_" + []string{"x", "y"}[r.Intn(2)]
@@ -59,6 +62,21 @@ func sfuScenario(r *hutil.Rng, i int, stream string) (atrun.Scenario, Meta) {
 		b = &sqlb{}
 		b.w(keycol + " = ")
 		b.intVal(r, 999)
+	}
+	if t.cols[t.pk[0]].Kind == "str" && len(t.pk) == 1 {
+		// character keys, some ending in a blank
+		b = &sqlb{}
+		switch r.Intn(3) {
+		case 0:
+			b.w(keycol + " >= ?")
+			b.args = append(b.args, atrun.S("c"))
+		case 1:
+			b.w(keycol + " IN (?, ?, ?)")
+			b.args = append(b.args, atrun.S("c3 "), atrun.S("c1"), atrun.S("c2"))
+		default:
+			b.w(keycol + " = ?")
+			b.args = append(b.args, atrun.S("c3 "))
+		}
 	}
 	if t.cols[t.pk[0]].Kind == "num" {
 		b = &sqlb{}
